@@ -286,6 +286,24 @@ fn random_bytes_case() -> BoxedStrategy<BytesCase> {
 			}
 			BytesCase::Utf32(Hex(b))
 		}),
+		// long sequences (1..70 units) of well-formed units with zero, one or two ill-formed ones at
+		// arbitrary positions: block-wise validators, length-dependent paths
+		(1usize..70, proptest::collection::vec((any::<u16>(), 0xd800u16..=0xdfff), 0..3), any::<u64>()).prop_map(|(n, bad, r)| {
+			let mut units: Vec<u16> = (0..n).map(|i| 0x41 + ((r >> (i % 32)) as u16).wrapping_add(i as u16) % 0x500).collect();
+			for (pos, u) in bad {
+				let at = pos as usize % n;
+				units[at] = u;
+			}
+			BytesCase::Utf16(Hex(units.iter().flat_map(|x| x.to_be_bytes()).collect()))
+		}),
+		(1usize..70, proptest::collection::vec((any::<u16>(), prop_oneof![0xd800u32..=0xdfff, 0x110000u32..0x120000, Just(0xffffffffu32), Just(0x80000000u32)]), 0..3), any::<u64>()).prop_map(|(n, bad, r)| {
+			let mut units: Vec<u32> = (0..n).map(|i| 0x41 + ((r >> (i % 32)) as u32).wrapping_add(i as u32) % 0x20000).map(|u| if (0xd800..=0xdfff).contains(&u) { 0x41 } else { u }).collect();
+			for (pos, u) in bad {
+				let at = pos as usize % n;
+				units[at] = u;
+			}
+			BytesCase::Utf32(Hex(units.iter().flat_map(|x| x.to_be_bytes()).collect()))
+		}),
 	]
 	.boxed()
 }
@@ -408,7 +426,7 @@ fn serialise_random() -> BoxedStrategy<SerialiseCase> {
 pub fn def() -> PropertyDef {
 	PropertyDef {
 		id: "C13",
-		rule: "Exhaustive: every Unicode scalar value as a one-character string for each of the five restricted types (5 x 1 112 064), through TryFrom<&str>, TryFrom<String> and FromStr, against alphabet predicates transcribed from the property; every single UTF-16 unit (alone, after a high surrogate, before a low surrogate, after an ordinary unit, odd lengths) and every UTF-32 unit 0..0x110400 plus high ranges for the byte-level constructors; random multi-character mixed strings and random unit sequences; accepted values serialised in names (batches of 400 attributes; under the six named attribute types as well as custom ones; incl. two-letter codes, digit strings, the empty string) and IA5 values in the three IA5-typed SAN forms (incl. texts that read as IP literals, lengths around 127/255 octets) and decoded back under the expected tag. Non-trivial = within 2 code points of an alphabet boundary, surrogate-range inputs, mixed strings.",
+		rule: "Exhaustive: every Unicode scalar value as a one-character string for each of the five restricted types (5 x 1 112 064), through TryFrom<&str>, TryFrom<String> and FromStr, against alphabet predicates transcribed from the property; every single UTF-16 unit (alone, after a high surrogate, before a low surrogate, after an ordinary unit, odd lengths) and every UTF-32 unit 0..0x110400 plus high ranges for the byte-level constructors; random multi-character mixed strings and random unit sequences (short ones, and 1..70 units with up to two ill-formed units at arbitrary positions); accepted values serialised in names (batches of 400 attributes; under the six named attribute types as well as custom ones; incl. two-letter codes, digit strings, the empty string) and IA5 values in the three IA5-typed SAN forms (incl. texts that read as IP literals, lengths around 127/255 octets) and decoded back under the expected tag. Non-trivial = within 2 code points of an alphabet boundary, surrogate-range inputs, mixed strings.",
 		assumptions: vec!["the alphabet predicates in spec.rs are a faithful transcription of the property statement", "the harness string decoder"],
 		subs: vec![
 			sweep_sub("scalar-sweep", scalar_chunks, check_scalar_chunk),
